@@ -38,10 +38,10 @@ func main() {
 
 func run(c *vlib.Ctx) {
 	c.Rule("seq*: histories of 5-70 ops {Put,PutMany,Delete,Has,Get,GetSize,View,AllKeysChan[WithErr],Rebuild,BloomActive} over 8 payloads x 6 CID forms (+cid.Undef reads) on {2Q 2..64 | Bloom 1..4096 B x 1..7 hashes | both} x WriteThrough x NoPrefix x Viewer, 0-14 pre-existing blocks, in lock-step with an uncached twin; " +
-		"seq-enum*: every initial build / Rebuild gets an enumeration fault (error entry, ctx cancelled while the datastore keeps delivering, ctx cancelled and the datastore stops silently) at a position 0..n; seq-wfault: datastore Put/Delete/Batch.Put/Commit fail before or after applying (a prefix); " +
+		"seq-enum*: every initial build / Rebuild gets an enumeration fault (error entry, ctx cancelled while the datastore keeps delivering, ctx cancelled and the datastore stops silently) at a position 0..n; seq-wfault: datastore Put/Delete/Batch.Put/Commit fail before or after applying (a prefix), datastore reads fail once; " +
 		"conc-*: 3-8 goroutines x 20-60 ops on 2-5 keys, datastore pauses 0-200us around its map operation, one goroutine looping Rebuild, half the Bloom runs start while the initial build enumerates; conc-hammer: read-only keys, 3-7 spinning readers against a tight Rebuild loop. " +
 		"distinct = FNV of config+op list (seq) or of the observed call/return interleaving (conc). " +
-		"non-trivial = (seq) a key was answered by the cache, then its presence was flipped by a write, then it was read again; or an enumeration fault fired strictly inside the enumeration (0<pos<n); or a write fault fired; (conc) two overlapping operations on one key of which one is a write; (hammer) >= 10 reads overlapped a Rebuild.")
+		"non-trivial = (seq) a key was answered by the cache, then its presence was flipped by a write, then it was read again; or an enumeration fault fired strictly inside the enumeration (0<pos<n); or a datastore write/read fault fired; (conc) two overlapping operations on one key of which one is a write; (hammer) >= 10 reads overlapped a Rebuild.")
 
 	// VERIF_C02_STRATA (development aid only): comma-separated subset of strata.
 	only := os.Getenv("VERIF_C02_STRATA")
@@ -51,12 +51,12 @@ func run(c *vlib.Ctx) {
 		}
 		c.Cases(stratum, total, fn)
 	}
-	cases("seq", c.N(900, 24000), seqCase(seqMode{}))
-	cases("seq-enum", c.N(450, 12000), seqCase(seqMode{enumFaults: true}))
-	cases("seq-enum-silentstop", c.N(150, 4000), seqCase(seqMode{enumFaults: true, silentStop: true}))
-	cases("seq-wfault", c.N(300, 8000), seqCase(seqMode{writeFaults: true}))
-	cases("conc-tq", c.N(100, 3000), concCase(concMode{name: "conc-tq"}))
-	cases("conc-bloom", c.N(220, 7000), concCase(concMode{name: "conc-bloom", bloom: true}))
-	cases("conc-hammer", c.N(24, 400), concCase(concMode{name: "conc-hammer", bloom: true, hammer: true}))
+	cases("seq", c.N(720, 16000), seqCase(seqMode{}))
+	cases("seq-enum", c.N(400, 8000), seqCase(seqMode{enumFaults: true}))
+	cases("seq-enum-silentstop", c.N(120, 2000), seqCase(seqMode{enumFaults: true, silentStop: true}))
+	cases("seq-wfault", c.N(280, 6000), seqCase(seqMode{writeFaults: true}))
+	cases("conc-tq", c.N(80, 2000), concCase(concMode{name: "conc-tq"}))
+	cases("conc-bloom", c.N(200, 5000), concCase(concMode{name: "conc-bloom", bloom: true}))
+	cases("conc-hammer", c.N(24, 240), concCase(concMode{name: "conc-hammer", bloom: true, hammer: true}))
 	cases("config", 6, configCase)
 }
